@@ -7,6 +7,7 @@ import (
 	"io"
 	"os"
 	"path/filepath"
+	"strings"
 	"unicode/utf8"
 
 	"github.com/cheggaaa/pb/v3"
@@ -110,6 +111,15 @@ func commitFileArtifact(
 	if status.ContentsMatch {
 		return nil
 	}
+	// A link to another object of this cache (e.g. left behind by an
+	// interrupted commit, or a committed file renamed by the user) already
+	// holds committed bytes: adopt the object's checksum.
+	if status.WorkspaceFileStatus == fsutil.StatusLink {
+		if cksum, ok := ch.checksumForLink(workPath); ok {
+			art.Checksum = cksum
+			return nil
+		}
+	}
 	if status.WorkspaceFileStatus != fsutil.StatusRegularFile {
 		return errors.Errorf("%s: expected regular file, got %s", workPath, status.WorkspaceFileStatus)
 	}
@@ -160,6 +170,31 @@ func commitFileArtifact(
 		return checkoutFile(ch, workspaceDir, *art, strat, nil)
 	}
 	return nil
+}
+
+// checksumForLink returns the checksum of the cache object that the symbolic
+// link at linkPath points to, if it points to an existing object of this cache.
+func (ch LocalCache) checksumForLink(linkPath string) (string, bool) {
+	target, err := os.Readlink(linkPath)
+	if err != nil {
+		return "", false
+	}
+	if !filepath.IsAbs(target) {
+		target = filepath.Join(filepath.Dir(linkPath), target)
+	}
+	rel, err := filepath.Rel(ch.dir, filepath.Clean(target))
+	if err != nil {
+		return "", false
+	}
+	parts := strings.Split(rel, string(filepath.Separator))
+	if len(parts) != 2 || len(parts[0]) != 2 || parts[0] == ".." || parts[1] == "" {
+		return "", false
+	}
+	info, err := os.Stat(target)
+	if err != nil || !info.Mode().IsRegular() {
+		return "", false
+	}
+	return parts[0] + parts[1], true
 }
 
 // commitBytes checksums the bytes from reader and results in said bytes being
